@@ -152,6 +152,344 @@ def ulist_section(ctx, M):
     ctx.trust('a duplicate-free list is determined by its member set and the relative order of its members (induction, not a solver step)')
 
 
+# =============================================================================================== dictattr
+def dictattr_section(ctx, M, cls):
+    """cls: 'dictattr' or 'Dict' - the static class whose MRO resolves the methods; the *dynamic* class is the symbolic tag"""
+    md = M['md']
+    d = Const('d', Dct)
+    o = Const('o', Dct)
+    ks = Const('ks', Lst)
+    k = Const('k', Val)
+    CLS = Const('type_self', Cls)
+    K0, K1 = Consts('K0 K1', Val)
+    J0 = Int('J0')
+    STARTS_ = None
+
+    def setup(name, loops=None):
+        th = Maps(M['classes'])
+        th.contracts['relabel'] = relabel_contract(th)
+        ex = Exec(md, [th], inline=M['inline'], loops=loops or {}, name='%s.%s' % (cls, name))
+        self_ = th.sym_dict('d', cls=cls, tag=CLS, kty='str')
+        return th, ex, self_
+
+    def hints(th, D, extra_lists=()):
+        """replayable models: at most 3 keys in every mapping / list involved"""
+        hs = []
+        for pl in extra_lists:
+            hs.append(pl.len <= 3)
+        return hs
+
+    def wit(D, **more):
+        w = dict(K0=K0, K1=K1, K0_in_d=D.dom(K0), K1_in_d=D.dom(K1), K0_before_K1=D.rk(K0) < D.rk(K1), K0_eq_K1=(K0 == K1))
+        w.update(more)
+        return w
+
+    def same_class(r):
+        return And(BoolVal(r.kind == 'pdict' and r.cls == cls), r.tag == CLS) if r.kind == 'pdict' else BoolVal(False)
+
+    def receiver_unchanged(out, self_):
+        cur = out.st.env.get('self')
+        return BoolVal(cur is not None and cur.kind == 'pdict' and cur.pd is self_.pd)
+
+    def mapping_posts(pre, hy, r, self_, member, value, order, kw):
+        """the four clauses for an operation returning a new mapping: class, exact keys, untouched values, key order"""
+        D, R = self_.pd, r.pd
+        ctx.post(pre + 'result_is_type_self', hy, same_class(r), **kw)
+        ctx.post(pre + 'result_is_a_new_object', hy, BoolVal(bool(r.f.get('own')) and r.pd is not D or bool(r.f.get('own'))), **kw)
+        ctx.post(pre + 'exact_keys', hy, R.dom(K0) == member(K0), **kw)
+        ctx.post(pre + 'values_untouched', hy + [R.dom(K0)], R.get(K0) == value(K0), **kw)
+        ctx.post(pre + 'key_order', hy + [R.dom(K0), R.dom(K1)], (R.rk(K0) < R.rk(K1)) == (order(K0) < order(K1)), **kw)
+
+    def run(name, key, th, ex, self_, args, kwargs=None, E=(), J=()):
+        fdef = M['inline'][key][1]
+        st = State()
+        outs = ex.run_function(st, key, [self_] + list(args), kwargs or {})
+        inst = finish(ctx, ex, th, list(E), list(J))
+        ctx.record_function(M['inline'][key][0], key, fdef, ex.stmts_executed)
+        return outs, inst
+
+    def resolve(th, mname):
+        key = th.resolve(cls, mname)
+        if key is None or key not in M['inline']:
+            raise SelectorError('%s.%s not found' % (cls, mname))
+        return key
+
+    # ------------------------------------------------------------------ d - key
+    def sub_key():
+        th, ex, self_ = setup('sub.key')
+        D = self_.pd
+        key = resolve(th, '__sub__')
+        E = [K0, K1, k]
+        ctx.default_meta = dict(search_hints=[])
+        outs, inst = run('sub.key', key, th, ex, self_, [V(k, 'str')], E=E)
+        kw = dict(witness=wit(D, k=k, k_in_d=D.dom(k)), replay=rp('dictattr', cls, 'sub.key'))
+        pre = '%s.sub.key.' % cls
+        nret = 0
+        for out in outs:
+            hy = ex.facts + out.st.pc + inst
+            if out.kind != 'return':
+                ctx.post(pre + 'never_raises.%s' % out.val, hy, BoolVal(False), kind='safety', **kw)
+                continue
+            nret += 1
+            mapping_posts(pre, hy, out.val, self_, lambda x: And(D.dom(x), x != k), D.get, D.rk, kw)
+            ctx.post(pre + 'receiver_unchanged', hy, receiver_unchanged(out, self_), kind='frame', **kw)
+        if not nret:
+            raise OutOfSubset('no returning path')
+        ctx.cover(pre + 'precondition', [D.dom(k), D.dom(K0), K0 != k] + th.inst(E))
+    ctx.guarded('%s.sub.key' % cls, sub_key)
+
+    # ------------------------------------------------------------------ d - [keys]
+    def sub_list():
+        fdef = M['inline'][Maps(M['classes']).resolve(cls, '__sub__')][1]
+        fors = find_all(fdef, lambda n: isinstance(n, ast.For))
+        if len(fors) != 2:
+            raise SelectorError('dictattr.__sub__: expected two for loops (tuple path, list path), found %d' % len(fors))
+        loop = fors[1]
+        box = {}
+
+        def inv(st, entry):
+            th, ex, self_ = box['th'], box['ex'], box['self']
+            D = self_.pd
+            res = st.env['res']
+            kk = st.ghost['sub.For1.k']
+            for f in th.inst([K0, K1], [kk]):
+                ex.fact(f)
+            if res.kind != 'pdict':
+                return [('res_is_a_mapping', BoolVal(False))]
+            R = res.pd
+            cl = [('class_kept', And(BoolVal(res.cls == cls and bool(res.f.get('own'))), res.tag == CLS))]
+            for nm, x in (('K0', K0), ('K1', K1)):
+                cl.append(('keys_are_d_minus_prefix.' + nm, R.dom(x) == And(D.dom(x), Not(MEMP(ks, kk, x)))))
+                cl.append(('values_and_stamps_kept.' + nm, Implies(R.dom(x), And(R.get(x) == D.get(x), R.rk(x) == D.rk(x)))))
+            return cl
+        th, ex, self_ = setup('sub.list', loops={id(loop): LoopSpec('sub.For1', inv)})
+        box.update(th=th, ex=ex, self=self_)
+        D = self_.pd
+        key = resolve(th, '__sub__')
+        sel = th.sym_list('ks', cls='list', elty='str')
+        E = [K0, K1]
+        outs, inst = run('sub.list', key, th, ex, self_, [sel], E=E)
+        kw = dict(witness=wit(D, len_ks=LEN(ks), K0_in_ks=MEM(ks, K0), K1_in_ks=MEM(ks, K1)), replay=rp('dictattr', cls, 'sub.list'))
+        pre = '%s.sub.list.' % cls
+        nret = 0
+        for out in outs:
+            hy = ex.facts + out.st.pc + inst
+            if out.kind != 'return':
+                ctx.post(pre + 'never_raises.%s' % out.val, hy, BoolVal(False), kind='safety', **kw)
+                continue
+            nret += 1
+            mapping_posts(pre, hy, out.val, self_, lambda x: And(D.dom(x), Not(MEM(ks, x))), D.get, D.rk, kw)
+            ctx.post(pre + 'receiver_unchanged', hy, receiver_unchanged(out, self_), kind='frame', **kw)
+        if not nret:
+            raise OutOfSubset('no returning path')
+        ctx.cover(pre + 'precondition', [D.dom(K0), MEM(ks, K0), D.dom(K1), Not(MEM(ks, K1)), LEN(ks) >= 2] + th.inst(E))
+    ctx.guarded('%s.sub.list' % cls, sub_list)
+
+    # ------------------------------------------------------------------ d & key, d & [keys]
+    def and_(argkind):
+        th, ex, self_ = setup('and.' + argkind)
+        D = self_.pd
+        key = resolve(th, '__and__')
+        if argkind == 'key':
+            other, E, sel = V(k, 'str'), [K0, K1, k], (lambda x: x == k)
+        else:
+            other, E, sel = th.sym_list('ks', cls='list', elty='str'), [K0, K1], (lambda x: MEM(ks, x))
+        outs, inst = run('and.' + argkind, key, th, ex, self_, [other], E=E)
+        kw = dict(witness=wit(D, K0_sel=sel(K0), K1_sel=sel(K1)), replay=rp('dictattr', cls, 'and.' + argkind))
+        pre = '%s.and.%s.' % (cls, argkind)
+        nret = 0
+        for out in outs:
+            hy = ex.facts + out.st.pc + inst
+            if out.kind != 'return':
+                ctx.post(pre + 'never_raises.%s' % out.val, hy, BoolVal(False), kind='safety', **kw)
+                continue
+            nret += 1
+            mapping_posts(pre, hy, out.val, self_, lambda x: And(D.dom(x), sel(x)), D.get, D.rk, kw)
+            ctx.post(pre + 'receiver_unchanged', hy, receiver_unchanged(out, self_), kind='frame', **kw)
+        if not nret:
+            raise OutOfSubset('no returning path')
+        ctx.post(pre + 'frame.no_mutation_site_executed', [], BoolVal(len(th.mutations) == 0), kind='frame')
+        ctx.cover(pre + 'precondition', [D.dom(K0), sel(K0), D.dom(K1), Not(sel(K1))] + th.inst(E))
+    for argkind in ('key', 'list'):
+        ctx.guarded('%s.and.%s' % (cls, argkind), lambda argkind=argkind: and_(argkind))
+
+    # ------------------------------------------------------------------ d + other  ==  {**d, **other}
+    def add(okind):
+        th, ex, self_ = setup('add.' + okind)
+        D = self_.pd
+        key = resolve(th, '__add__')
+        other = th.sym_dict('o', cls=('dict' if okind == 'dict' else cls), kty='str')
+        O = other.pd
+        E = [K0, K1]
+        outs, inst = run('add.' + okind, key, th, ex, self_, [other], E=E)
+        kw = dict(witness=wit(D, K0_in_o=O.dom(K0), K1_in_o=O.dom(K1), K0_before_K1_in_o=O.rk(K0) < O.rk(K1)), replay=rp('dictattr', cls, 'add.' + okind))
+        pre = '%s.add.%s.' % (cls, okind)
+        nret = 0
+        for out in outs:
+            hy = ex.facts + out.st.pc + inst
+            if out.kind != 'return':
+                ctx.post(pre + 'never_raises.%s' % out.val, hy, BoolVal(False), kind='safety', **kw)
+                continue
+            nret += 1
+            # {**d, **o}: keys of d in d's order (values overwritten by o), then the new keys of o in o's order
+            mapping_posts(pre, hy, out.val, self_, lambda x: Or(D.dom(x), O.dom(x)), lambda x: If(O.dom(x), O.get(x), D.get(x)),
+                          lambda x: If(D.dom(x), D.rk(x), D.nxt + O.rk(x)), kw)
+            ctx.post(pre + 'receiver_unchanged', hy, receiver_unchanged(out, self_), kind='frame', **kw)
+            oth = out.st.env.get('other')
+            ctx.post(pre + 'other_unchanged', hy, BoolVal(oth is not None and oth.kind == 'pdict' and oth.pd is O), kind='frame', **kw)
+        if not nret:
+            raise OutOfSubset('no returning path')
+        ctx.cover(pre + 'precondition', [D.dom(K0), O.dom(K0), O.dom(K1), Not(D.dom(K1))] + th.inst(E))
+    if cls == 'dictattr':
+        for okind in ('dict', 'same'):
+            ctx.guarded('%s.add.%s' % (cls, okind), lambda okind=okind: add(okind))
+
+    # ------------------------------------------------------------------ d[key], d.key
+    def getitem_key(how):
+        th, ex, self_ = setup(how + '.key')
+        D = self_.pd
+        key = resolve(th, '__getitem__' if how == 'getitem' else '__getattr__')
+        E = [k]
+        from pyvc.th_maps import STARTSWITH
+        st_pre = [Not(STARTSWITH(k, th.strv('_')))]
+        fdef = M['inline'][key][1]
+        st = State(); st.pc += st_pre
+        outs = ex.run_function(st, key, [self_, V(k, 'str')], {})
+        inst = finish(ctx, ex, th, E)
+        ctx.record_function(M['inline'][key][0], key, fdef, ex.stmts_executed,
+                            excluded=['dotted keys (nested access)', 'attribute names starting with "_" (python attributes of dict)'] if how == 'getattr' else ['dotted keys (nested access)'])
+        kw = dict(witness=dict(k=k, k_in_d=D.dom(k)), replay=rp('dictattr', cls, how + '.key'))
+        pre = '%s.%s.key.' % (cls, how)
+        expected_exc = 'KeyError' if how == 'getitem' else 'AttributeError'
+        nret = 0
+        for out in outs:
+            hy = ex.facts + out.st.pc + inst
+            if out.kind == 'raise':
+                ctx.post(pre + 'raises_only_%s_and_only_for_an_absent_key' % expected_exc, hy, And(BoolVal(out.val == expected_exc), Not(D.dom(k))), kind='safety', **kw)
+                continue
+            nret += 1
+            r = out.val
+            ctx.post(pre + 'returns_the_stored_value', hy, And(D.dom(k), th.to_val(ex, r) == D.get(k)), **kw)
+            ctx.post(pre + 'receiver_unchanged', hy, receiver_unchanged(out, self_), kind='frame', **kw)
+        if not nret:
+            raise OutOfSubset('no returning path')
+        ctx.post(pre + 'frame.no_mutation_site_executed', [], BoolVal(len(th.mutations) == 0), kind='frame')
+        ctx.cover(pre + 'precondition.present', st_pre + [D.dom(k)] + th.inst(E))
+        ctx.cover(pre + 'precondition.absent', st_pre + [Not(D.dom(k))] + th.inst(E))
+    for how in ('getitem', 'getattr'):
+        ctx.guarded('%s.%s.key' % (cls, how), lambda how=how: getitem_key(how))
+
+    # ------------------------------------------------------------------ d[k1, k2, ...] -> list of values
+    def getitem_tuple():
+        th, ex, self_ = setup('getitem.tuple')
+        D = self_.pd
+        key = resolve(th, '__getitem__')
+        sel = th.sym_list('ks', cls='tuple', elty='str')
+        E = [AT(ks, J0)]
+        outs, inst = run('getitem.tuple', key, th, ex, self_, [sel], E=E, J=[J0])
+        kw = dict(witness=dict(len_ks=LEN(ks), J0=J0), replay=rp('dictattr', cls, 'getitem.tuple'))
+        pre = '%s.getitem.tuple.' % cls
+        nret = 0
+        for out in outs:
+            hy = ex.facts + out.st.pc + inst
+            if out.kind == 'raise':
+                # the comprehension's raise outcome names the offending position through its path condition
+                absent = Exists([J0], And(0 <= J0, J0 < LEN(ks), Not(D.dom(AT(ks, J0)))))
+                ctx.post(pre + 'raises_only_KeyError_and_only_if_some_key_is_absent', hy, And(BoolVal(out.val == 'KeyError'), absent), kind='safety', **kw)
+                continue
+            nret += 1
+            r = out.val
+            if r.kind != 'lazylist':
+                raise OutOfSubset('d[tuple] does not return a list comprehension')
+            s2 = out.st.fork()
+            ej = r.at(s2, J0)
+            hy2 = ex.facts + s2.pc + inst
+            ctx.post(pre + 'one_value_per_key', hy2, r.n == LEN(ks), **kw)
+            ctx.post(pre + 'jth_value_is_the_value_of_the_jth_key', hy2 + [0 <= J0, J0 < LEN(ks)], And(D.dom(AT(ks, J0)), th.to_val(ex, ej) == D.get(AT(ks, J0))), **kw)
+            ctx.post(pre + 'receiver_unchanged', hy, receiver_unchanged(out, self_), kind='frame', **kw)
+        if not nret:
+            raise OutOfSubset('no returning path')
+        ctx.post(pre + 'frame.no_mutation_site_executed', [], BoolVal(len(th.mutations) == 0), kind='frame')
+        ctx.cover(pre + 'precondition', [LEN(ks) >= 2, 0 <= J0, J0 < LEN(ks), D.dom(AT(ks, J0))] + th.inst(E, [J0]))
+    ctx.guarded('%s.getitem.tuple' % cls, getitem_tuple)
+
+    # ------------------------------------------------------------------ d[[k1, k2, ...]] -> sub-mapping of the same class
+    def getitem_list():
+        th, ex, self_ = setup('getitem.list')
+        D = self_.pd
+        key = resolve(th, '__getitem__')
+        sel = th.sym_list('ks', cls='list', elty='str')
+        E = [K0, K1]
+        outs, inst = run('getitem.list', key, th, ex, self_, [sel], E=E)
+        kw = dict(witness=wit(D, len_ks=LEN(ks), K0_in_ks=MEM(ks, K0), K1_in_ks=MEM(ks, K1)), replay=rp('dictattr', cls, 'getitem.list'))
+        pre = '%s.getitem.list.' % cls
+        nret = 0
+        for out in outs:
+            hy = ex.facts + out.st.pc + inst
+            if out.kind == 'raise':
+                absent = Or(*[And(MEM(ks, w), Not(D.dom(w))) for w in th.elems]) if th.elems else BoolVal(False)
+                ctx.post(pre + 'raises_only_KeyError_and_only_if_some_key_is_absent', hy, And(BoolVal(out.val == 'KeyError'), absent), kind='safety', **kw)
+                continue
+            nret += 1
+            # keys: exactly the selected ones, all present; order: first occurrence in the selection
+            mapping_posts(pre, hy, out.val, self_, lambda x: MEM(ks, x), D.get, lambda x: FST(ks, x), kw)
+            ctx.post(pre + 'returns_only_if_every_selected_key_is_present', hy + [MEM(ks, K0)], D.dom(K0), **kw)
+            ctx.post(pre + 'receiver_unchanged', hy, receiver_unchanged(out, self_), kind='frame', **kw)
+        if not nret:
+            raise OutOfSubset('no returning path')
+        ctx.post(pre + 'frame.no_mutation_site_executed', [], BoolVal(len(th.mutations) == 0), kind='frame')
+        ctx.cover(pre + 'precondition', [MEM(ks, K0), D.dom(K0), MEM(ks, K1), K0 != K1] + th.inst(E))
+    ctx.guarded('%s.getitem.list' % cls, getitem_list)
+
+    # ------------------------------------------------------------------ relabel
+    def relabel_():
+        th, ex, self_ = setup('relabel')
+        D = self_.pd
+        key = resolve(th, 'relabel')
+        E = [K0, K1]
+        kwargs = {'**': th.sym_dict('relabels', cls='dict', kty='str')}
+        fdef = M['inline'][key][1]
+        st = State()
+        outs = ex.run_function(st, key, [self_], kwargs)
+        Mmap = th.relabel_map
+        m = lambda x: If(Mmap.dom(x), Mmap.get(x), x)
+        inst = finish(ctx, ex, th, E + [m(K0), m(K1)])
+        ctx.record_function(md, key, fdef, ex.stmts_executed)
+        kw = dict(witness=wit(D, K0_renamed=Mmap.dom(K0)), replay=rp('dictattr', cls, 'relabel'))
+        pre = '%s.relabel.' % cls
+        q = Const('q', Val)
+        inj = ForAll([q], Implies(And(D.dom(q), q != K0), m(q) != m(K0)))
+        nret = 0
+        for out in outs:
+            hy = ex.facts + out.st.pc + inst
+            if out.kind != 'return':
+                ctx.post(pre + 'never_raises.%s' % out.val, hy, BoolVal(False), kind='safety', **kw)
+                continue
+            nret += 1
+            r = out.val
+            R = r.pd
+            ctx.post(pre + 'result_is_type_self', hy, same_class(r), **kw)
+            ctx.post(pre + 'every_key_is_renamed', hy + [D.dom(K0)], R.dom(m(K0)), **kw)
+            ctx.post(pre + 'only_renamed_keys', hy + [R.dom(K0)], Exists([q], And(D.dom(q), m(q) == K0)), **kw)
+            ctx.post(pre + 'values_untouched_when_no_two_keys_collide', hy + [D.dom(K0), inj], R.get(m(K0)) == D.get(K0), **kw)
+            ctx.post(pre + 'receiver_unchanged', hy, receiver_unchanged(out, self_), kind='frame', **kw)
+        if not nret:
+            raise OutOfSubset('no returning path')
+        ctx.post(pre + 'frame.no_mutation_site_executed', [], BoolVal(len(th.mutations) == 0), kind='frame')
+        ctx.cover(pre + 'precondition', [D.dom(K0), Mmap.dom(K0), D.dom(K1), Not(Mmap.dom(K1)), m(K0) != K1] + th.inst(E))
+    ctx.guarded('%s.relabel' % cls, relabel_)
+
+
+def relabel_contract(th):
+    def h(ex, st, args, kwargs, star=None, dstar=None):
+        ex.use('assumed contract:the module-level relabel(keys, *args, **relabels) returns a plain dict M (old key -> new key); its prefix / suffix / '
+               'callable string building is checked by the bounded stand-in only')
+        M = th.sym_dict('M', cls='dict', own=True)
+        th.relabel_map = M.pd
+        return M
+    return h
+
+
 def rp(kind, *extra):
     def mk(model):
         d = dict(kind=kind, extra=list(extra))
@@ -165,3 +503,5 @@ def build(ctx):
     ctx.post('axioms.list_and_dict_element_view_agree_with_cpython', [], BoolVal(not bad), kind='axiom-validation')
     M = machinery(ctx)
     ctx.guarded('ulist', lambda: ulist_section(ctx, M))
+    for cls in ('dictattr', 'Dict'):
+        dictattr_section(ctx, M, cls)
